@@ -1,7 +1,9 @@
 (* Corr_C09.v — correspondence cases for C09: the SAME model definitions (Lbfgs.v) run at binary64 on the
    operation sequences that were run on the real alpaqa::LBFGS, and every observable is compared:
    return value, the vector q after apply / apply_masked, current_history(), and the stored history
-   (s, y, ρ in foreach_fwd order) after every operation. *)
+   (s, y, ρ in foreach_fwd order) after every operation — so a ρ written by apply_masked would show up
+   at the apply_masked record itself.  The workspace α (and its NaN exclusion mark, `sl_skip`) is not an
+   observable: it is only compared through its effect on q. *)
 From Coq Require Import Floats List ZArith Bool Arith.
 From Alpaqa Require Import Num NumF Vec Lbfgs.
 Import ListNotations.
